@@ -235,7 +235,7 @@ theorem pres_mutual {cfg} : ∀ fuel,
       -- the key
       have hkey : P (if ((cur s).1 == 0x22 || (cur s).1 == 0x27) = true then parseQuoted cfg (cur s).1 (f+1) [] 0 (mv (cur s).2)
             else if inUnquoted (cur s).1 = true then
-              (Code.ok, (parseUnquoted (f+1) [] (cur s).2).1, (parseUnquoted (f+1) [] (cur s).2).2)
+              ((if (parseUnquoted (f+1) [] (cur s).2).1.length > cfg.maxStrLen then Code.noMemory else Code.ok), (parseUnquoted (f+1) [] (cur s).2).1, (parseUnquoted (f+1) [] (cur s).2).2)
             else (Code.invalid, [], (cur s).2)).2.2 := by
         split
         · exact pres_parseQuoted hP _ _ _ _ (hP.mv hc)
@@ -244,7 +244,7 @@ theorem pres_mutual {cfg} : ∀ fuel,
           · exact hc
       generalize (if ((cur s).1 == 0x22 || (cur s).1 == 0x27) = true then parseQuoted cfg (cur s).1 (f+1) [] 0 (mv (cur s).2)
             else if inUnquoted (cur s).1 = true then
-              (Code.ok, (parseUnquoted (f+1) [] (cur s).2).1, (parseUnquoted (f+1) [] (cur s).2).2)
+              ((if (parseUnquoted (f+1) [] (cur s).2).1.length > cfg.maxStrLen then Code.noMemory else Code.ok), (parseUnquoted (f+1) [] (cur s).2).1, (parseUnquoted (f+1) [] (cur s).2).2)
             else (Code.invalid, [], (cur s).2)) = kr at hkey ⊢
       obtain ⟨kc, key, s1⟩ := kr
       cases kc <;> simp only at hkey ⊢ <;> try exact hkey
